@@ -159,6 +159,7 @@ std::vector<u32> gen_text(Rng &r, const std::string &font, size_t maxlen, bool a
             t.insert(t.begin() + long(pos), it);
         }
     }
+    if (adversarial && r.chance(1, 8)) t.push_back(ILL | ILL_TAIL | r.below(0x400000));
     for (auto &c : t) c = sanitize_item(c);
     return t;
 }
@@ -227,11 +228,67 @@ Fault gen_file_fault(Rng &r, const FontImage &fi) {
     return f;
 }
 
+
+// ------------------------------------------------------------------------------------------ structured Silf rot
+// CODEROT: well-formed-length bytecode mutations (opcode swaps of equal size, an instruction replaced by
+// DELETE/INSERT/NEXT + NOPs, operand tweaks): rule programs no compiler would emit, most still accepted by the loader.
+Fault gen_code_fault(Rng &r, const FontImage &fi) {
+    Fault f; f.kind = "CODEROT"; f.tag = "Silf"; f.nth = -1;
+    auto it = fi.tables.find(mktag("Silf")); if (it == fi.tables.end()) return f;
+    const Bytes &t = it->second;
+    std::vector<PassInfo> ps; silf_passes(t, ps);
+    if (ps.empty()) return f;
+    static const std::vector<unsigned> BY[6] = {
+        {0, 6, 7, 8, 9, 10, 11, 12, 13, 14, 15, 16, 17, 18, 19, 20, 21, 22, 23, 24, 25, 27, 31, 32, 48, 49, 50, 55, 62, 63, 64},
+        {1, 2, 28, 30, 35, 36, 37, 38, 54}, {3, 4, 39, 40, 41, 43, 44, 51, 52, 53, 59, 66}, {29, 42, 45, 46, 60, 61}, {5, 65}, {56}};
+    static const unsigned ZERO_ACT[] = {32, 32, 31, 31, 25, 27, 0, 9, 48};     // DELETE, INSERT, NEXT, COPY_NEXT, NOP, DIV, POP_RET
+    unsigned nm = 1 + (r.chance(1, 3) ? r.below(3) : 0);
+    for (unsigned m = 0; m < nm; ++m) {
+        const PassInfo &p = ps[r.below(u32(ps.size()))];
+        bool action = r.chance(4, 5);
+        std::vector<Insn> ins; decode_code(t, action ? p.ac_lo : p.rc_lo, action ? p.ac_hi : p.rc_hi, ins);
+        if (ins.empty()) continue;
+        const Insn &in = ins[r.below(u32(ins.size()))];
+        u32 k = r.below(10);
+        if (k < 4 && in.plen >= 0 && in.plen <= 5) {                    // equal-size opcode swap
+            const std::vector<unsigned> &c = BY[in.plen]; f.a.push_back(i64(in.off)); f.a.push_back(i64(c[r.below(u32(c.size()))]));
+        } else if (k < 7 && in.plen >= 1) {                             // instruction -> zero-operand opcode + NOPs
+            f.a.push_back(i64(in.off)); f.a.push_back(i64(ZERO_ACT[r.below(sizeof ZERO_ACT / sizeof ZERO_ACT[0])]));
+            for (int q = 1; q <= in.plen; ++q) { f.a.push_back(i64(in.off + size_t(q))); f.a.push_back(0); }
+        } else if (in.plen >= 1) {                                      // operand tweak
+            size_t q = 1 + r.below(u32(in.plen)); unsigned old = t[in.off + q]; unsigned nv;
+            bool attr_op = (in.op >= 35 && in.op <= 39) || (in.op >= 51 && in.op <= 53);
+            if (attr_op && q == 1) { static const unsigned attrs[] = {2, 2, 2, 0, 1, 3, 4, 8, 9, 13, 14, 17, 20, 21, 22, 55, 29, 24, 56, 57}; nv = attrs[r.below(sizeof attrs / sizeof attrs[0])]; }
+            else { u32 c = r.below(6); nv = c == 0 ? old + 1 : c == 1 ? old - 1 : c == 2 ? 0 : c == 3 ? 255 : c == 4 ? 1 + r.below(4) : r.below(256); }
+            f.a.push_back(i64(in.off + q)); f.a.push_back(i64(nv & 0xFF));
+        } else { f.a.push_back(i64(in.off)); f.a.push_back(i64(ZERO_ACT[r.below(sizeof ZERO_ACT / sizeof ZERO_ACT[0])])); }
+    }
+    return f;
+}
+
+// LOOPROT: pass header fields that bound the work: maxRuleLoop, flags, maxRuleContext/maxBackup
+Fault gen_loop_fault(Rng &r, const FontImage &fi) {
+    Fault f; f.kind = "LOOPROT"; f.tag = "Silf"; f.nth = -1;
+    auto it = fi.tables.find(mktag("Silf")); if (it == fi.tables.end()) return f;
+    std::vector<PassInfo> ps; silf_passes(it->second, ps);
+    if (ps.empty()) return f;
+    static const int vals[] = {0, 0, 1, 2, 255, 128};
+    bool all = r.chance(1, 2); int v = vals[r.below(6)]; unsigned field = r.chance(3, 4) ? 1 : (r.chance(1, 2) ? 2 : 3);
+    size_t one = r.below(u32(ps.size()));
+    for (size_t i = 0; i < ps.size(); ++i) if (all || i == one) { f.a.push_back(i64(ps[i].head + field)); f.a.push_back(v); }
+    return f;
+}
+
 void gen_faults(Rng &r, const FontImage &fi, int source, std::vector<Fault> &out, int maxn) {
     int n = 1; while (n < maxn && r.chance(1, 3)) ++n;
     for (int i = 0; i < n; ++i) {
-        if (source == 1 && r.chance(1, 3)) out.push_back(gen_file_fault(r, fi));
-        else out.push_back(gen_store_fault(r, fi));
+        Fault f;
+        if (source == 1 && r.chance(1, 3)) f = gen_file_fault(r, fi);
+        else if (r.chance(1, 8)) f = gen_code_fault(r, fi);
+        else if (r.chance(1, 16)) f = gen_loop_fault(r, fi);
+        else f = gen_store_fault(r, fi);
+        if ((f.kind == "CODEROT" || f.kind == "LOOPROT") && f.a.empty()) f = gen_store_fault(r, fi);
+        out.push_back(f);
     }
 }
 
